@@ -89,6 +89,26 @@ def _resume_position(ctx, rep):
 
 
 def check(ctx, rep):
+    # a file that was open for writing is rebuilt up to the recorded position only: what lies behind it in the file on disk was
+    # written by close() at suspension (the 0x1A marker) and is not part of the stream
+    uf = ctx.fn('pcbasic/basic/state.py:unpickle_file')
+    flu = ctx.flow(uf)
+    rd = [c for c in own_nodes(uf) if isinstance(c, ast.Call) and isinstance(c.func, ast.Attribute) and c.func.attr == 'read' and any(f.pol and "'w' in mode" in f.text for f in flu.facts(c))]
+    rep.ob('resume.writable-file-rebuilt-to-position', 'unpickle_file copies exactly `pos` bytes of the old contents of a writable file',
+           len(rd) == 1 and [norm(a) for a in rd[0].args] == ['pos'], repr([norm(x) for x in rd]), ctx.where(uf))
+    # the redo flag of a keyboard INPUT / LINE INPUT is raised and lowered on the same object (the one the interpreter reads)
+    n_flag = 0
+    for fn in ctx.idx.functions('pcbasic/basic/implementation.py'):
+        meth = fn.name
+        if not any(isinstance(a, ast.Assign) and norm(a.targets[0]).endswith('.redo_on_break') for a in own_nodes(fn)):
+            continue
+        ups = sorted(norm(a.targets[0]) for a in own_nodes(fn) if isinstance(a, ast.Assign) and norm(a.targets[0]).endswith('.redo_on_break') and norm(a.value) == 'True')
+        downs = sorted(norm(a.targets[0]) for a in own_nodes(fn) if isinstance(a, ast.Assign) and norm(a.targets[0]).endswith('.redo_on_break') and norm(a.value) == 'False')
+        n_flag += len(ups)
+        rep.ob('resume.redo-flag-paired', 'Implementation.%s raises and lowers the redo flag on self.parser' % meth,
+               ups == downs and set(ups) == {'self.parser.redo_on_break'},
+               'raised on %r, lowered on %r: the flag stays up, and a suspension at the next statement boundary re-executes the stopped statement on every resume' % (ups, downs), ctx.where(fn))
+    rep.floor('resume.redo-flag-paired', n_flag, 2, 'statements that raise the redo flag')
     _rebuilt_streams_keep_position(ctx, rep)
     _resume_position(ctx, rep)
     keys = ctx.const(ST, 'HEADER_KEYS')
@@ -242,6 +262,11 @@ def variants(ctx):
         return lambda tree: f(mu.find_def(tree, path_fn))
 
     return [
+        mu.Variant('writable-file-rebuilt-whole', 'break', 'pcbasic/basic/state.py',
+                   lambda tree: mu.replace_expr(mu.find_def(tree, 'unpickle_file'), mu.text_is('f.read(pos)'), 'f.read()'), expect='resume.writable-file-rebuilt-to-position'),
+        mu.Variant('redo-flag-lowered-on-the-wrong-object', 'break', 'pcbasic/basic/implementation.py',
+                   lambda tree: mu.replace_stmt(mu.find_def(tree, 'Implementation.line_input_'), mu.text_is('self.parser.redo_on_break = False'), 'self.interpreter.redo_on_break = False'),
+                   expect='resume.redo-flag-paired'),
         Va('resume-does-not-skip-line-header', 'break', INTERP,
            lambda tree: mu.replace_stmt(mu.find_def(tree, 'Interpreter.__setstate__'), lambda st: isinstance(st, ast.If) and 'tk.END_LINE' in norm(st.test), 'ins.read(1)'), expect='resume.line-header'),
         Va('field-buffer-position-lost', 'break', 'pcbasic/basic/devices/diskfiles.py',
